@@ -34,8 +34,8 @@ import (
 	"verif/harness/internal/we"
 )
 
-var domains = []string{"", "bearer", "jwt", "a", "ab", "a b", "дом", "x|y", "1:", "anonymous"}
-var principals = []string{"", "anonymous", "\x00anonymous", "a\x00b", "b", " b", "alice", "üñí", strings.Repeat("p", 300), "\x01", "bearer"}
+var domains = []string{"", "bearer", "jwt", "a", "ab", "a b", "дом", "x|y", "1:", "anonymous", strings.Repeat("d", 300), "\xff\xfe"}
+var principals = []string{"", "anonymous", "\x00anonymous", "a\x00b", "b", " b", "alice", "üñí", strings.Repeat("p", 300), strings.Repeat("q", 70000), "\xff", "\x01", "bearer"}
 
 func fixedIdentities() []we.Identity {
 	ids := []we.Identity{we.Anon}
